@@ -80,7 +80,7 @@ def law_history(ch):
     import symmray as sr
 
     spec = ch.draw(gen.array_specs(syms=ALLSYMS, max_ndim=4, max_size=2,
-                                   allow_empty=False), "x0")
+                                   allow_empty=False, dtype="any"), "x0")
     pool = Pool()
     pool.add(gen.build(spec))
     nsteps = ch.choice(range(3, 11 if tier() == "quick" else 25), "nsteps")
